@@ -32,15 +32,18 @@ ID = "C18"
 LEVEL = "exploration"
 ENGINE = "seq"
 RUNS = {"quick": 150_000, "thorough": 10_000_000}
-RULE = ("runs 0..14174 enumerate, per loop, every limit value 0..4 (swarm: both limits, 25 pairs) x every peer script of "
+RULE = ("runs 0..16984 enumerate, per loop, every limit value 0..4 (swarm: both limits, 25 pairs) x every peer script of "
         "length <=3 over the loop's alphabet with the last symbol repeating forever (heal: {non-JSON, schema-invalid, "
-        "valid, echo the error, raise, never-repeating} x {plain, error-tagging} chaperone x {repeat-last, cycle}; swarm: "
+        "valid, echo the error, raise RuntimeError, raise TypeError from its own body, never-repeating} x {plain, error-tagging} chaperone x {repeat-last, cycle}; swarm: "
         "{same output, fresh output, marker, lower-case marker, raise, delegate a sub-task to the same supervisor "
         "re-entrantly}; tools: {one tool, unknown tool, two tools, final, raise, raising tool} x final completion "
         "{text, empty}); later runs sample scripts of length <=8 over wider alphabets, cycling tails, per-worker "
         "scripts, entropy thresholds, summarizer behaviours, repeated supervise / heal / transcribe_with_tools on one "
         "long-lived object, re-entrant delegation after k worker deaths, confidence decays, misfold observers (recording, "
-        "raising), Nucleus(max_retries, base_energy_cost), blank final and in-loop answers, tools returning None/'', "
+        "raising), generators raising AttributeError/KeyError/an exception with empty str(), workers written against the "
+        "protocol that keep no memory and SimpleWorkers whose work function prunes or clears the memory it is handed, a "
+        "factory that edits the hints list, Nucleus(max_retries, base_energy_cost), blank final and in-loop answers, tools "
+        "returning None/''/7 kB/20 kB payloads or raising KeyError(), "
         "engines without tools, providers without tool support, auto_execute off; non-trivial = a run in which a loop "
         "consumed an entire budget (was stopped by its bound, or finished exactly at it); distinct = distinct "
         "(configuration, script)")
@@ -720,8 +723,6 @@ def _tools_once(k, tr, cfg, script, lim, site, prov, nuc, m, exec_rounds, runs, 
         # the one plain completion the budget allows is the *final* one: nothing tool-enabled may follow it
         k.violation("tool_rounds", "plain_completion_inside_the_loop", site,
                     f"provider calls in order: {''.join(prov.order)} (t = tool-enabled, p = plain)")
-    if len(prov.order) > lim + 1 and prov.cwt <= lim and prov.plain <= 1:
-        k.violation("tool_rounds", "over_budget_provider_calls", site, f"{len(prov.order)} provider calls, budget {lim + 1}")
     if cfg["tools"] == "both" and cfg["provider"] == "tools":
         if prov.cwt >= lim:
             k.nontrivial = True
